@@ -12,3 +12,52 @@ package ip
 //@   ensures ipv4only: ret1 == nil ==> ret0 != nil && len(ret0.IP) == 4 && len(ret0.Mask) == 4 && canonical(content(ret0.Mask))
 //@   ensures refuse6:  strcontains(subnet, ":") ==> ret0 == nil && ret1 == ErrInvalidAddr
 //@   ensures failure:  ret1 != nil ==> ret0 == nil
+
+// ---------------------------------------------------------------------------------------------
+// C17: the FIRST interface (in system order) that has an address network containing the target's base address is
+// chosen, together with that network's own address; a lookup error aborts; none attached -> nil
+//@ func GetLocalSubnetInterface
+//@   props C17
+//@   observe net.Interfaces, GetLocalSubnetInterfaceIP
+//@   entry row nolist: [call net.Interfaces() as (ifs, e)] when e != nil && ret2 == e -> exit
+//@   entry row list:   [call net.Interfaces() as (ifs, e)] when e == nil -> loop 0
+//@   loop 0 invariant clean: err == nil
+//@   loop 0 row none:     [] when ret0 == nil && ret2 == nil -> exit
+//@   loop 0 row skip:     [call GetLocalSubnetInterfaceIP(bind_v, dstSubnet) as (a, e)] when e == nil && a == nil -> continue
+//@   loop 0 row attached: [call GetLocalSubnetInterfaceIP(bind_v, dstSubnet) as (a, e)] when e == nil && a != nil && ret0 == v && ret1 == a && ret2 == nil && fresh(v) -> exit
+//@   loop 0 row failed:   [call GetLocalSubnetInterfaceIP(bind_v, dstSubnet) as (a, e)] when e != nil && ret2 == e -> exit
+
+// the address returned for an interface is the address of the FIRST of its networks that contains the target base
+//@ func GetLocalSubnetInterfaceIP
+//@   props C17
+//@   observe Mask, Addrs, Contains
+//@   entry row noaddrs: [call Mask(dstSubnet.IP, dstSubnet.Mask) as (base) ; call Addrs(iface) as (as, e)] when e != nil && ret0 == nil && ret1 == e -> exit
+//@   entry row addrs:   [call Mask(dstSubnet.IP, dstSubnet.Mask) as (base) ; call Addrs(iface) as (as, e)] when e == nil -> loop 0
+//@   loop 0 row none:   [] when ret0 == nil && ret1 == nil -> exit
+//@   loop 0 row other:  [] when !isptr(addr, net.IPNet) -> continue
+//@   loop 0 row miss:   [call Contains(bind_n, bind_b) as (c)] when isptr(addr, net.IPNet) && n == asptr(addr, net.IPNet) && !c -> continue
+//@   loop 0 row hit:    [call Contains(bind_n, bind_b) as (c)] when isptr(addr, net.IPNet) && n == asptr(addr, net.IPNet) && c && ret0 == n.IP && ret1 == nil -> exit
+
+// first address of an interface
+//@ func GetInterfaceIP
+//@   props C17
+//@   observe Addrs, fmt.Errorf
+//@   entry row none:  [call Addrs(iface) as (as, e)] when (e != nil || len(as) == 0) && ret0 == nil && ret1 == e -> exit
+//@   entry row first: [call Addrs(iface) as (as, e)] when e == nil && len(as) > 0 && isptr(as[0], net.IPNet) && ret0 == asptr(as[0], net.IPNet).IP && ret1 == nil -> exit
+//@   entry row other: [call Addrs(iface) as (as, e) ; call fmt.Errorf(_, _) as (fe)] when e == nil && len(as) > 0 && !isptr(as[0], net.IPNet) && ret0 == nil && ret1 == fe -> exit
+
+// default route choice: a route is taken iff it is a default route (no Dst, no Src) whose metric is STRICTLY lower
+// than the best seen so far (so the first of equal metrics wins); taking it replaces interface and address by that
+// route's link and its first address; other routes change nothing
+//@ func GetDefaultInterface
+//@   props C17
+//@   observe netlink.RouteList, net.InterfaceByIndex, GetInterfaceIP
+//@   entry row nolist: [call netlink.RouteList(_, _) as (rs, e)] when e != nil && ret2 == e -> exit
+//@   entry row list:   [call netlink.RouteList(_, _) as (rs, e)] when e == nil -> loop 0
+//@   loop 0 invariant clean: err == nil
+//@   loop 0 row done:  [] when ret0 == iface && ret1 == ifaceIP && ret2 == nil -> exit
+//@   loop 0 row skip:  [] when !(route.Dst == nil && route.Src == nil && route.Priority < pre(priority)) && priority == pre(priority) && iface == pre(iface) && ifaceIP == pre(ifaceIP) -> continue
+//@   loop 0 row nolink: [call net.InterfaceByIndex(route.LinkIndex) as (i, e)] when route.Dst == nil && route.Src == nil && route.Priority < pre(priority) && e != nil && ret2 == e -> exit
+//@   loop 0 row noaddr: [call net.InterfaceByIndex(route.LinkIndex) as (i, e) ; call GetInterfaceIP(i) as (a, e2)] when route.Dst == nil && route.Src == nil && route.Priority < pre(priority) && e == nil && e2 != nil && ret2 == e2 -> exit
+//@   loop 0 row take:  [call net.InterfaceByIndex(route.LinkIndex) as (i, e) ; call GetInterfaceIP(i) as (a, e2)]
+//@                        when route.Dst == nil && route.Src == nil && route.Priority < pre(priority) && e == nil && e2 == nil && priority == route.Priority && iface == i && ifaceIP == a -> continue
